@@ -124,6 +124,9 @@ func verifC11_TrafficController() {
 	if ok {
 		got := h.(*vPipe)
 		verifAssert(got == pa || got == pa2, "handler-is-the-old-or-the-new-generation")
+		// ... and a generation that is ready to serve: created ones were initialised, updated
+		// ones have inherited, before any request can get hold of them
+		verifAssert(got.inits+got.inherits == 1, "handler-given-to-a-request-is-a-ready-generation")
 		if got == pa2 {
 			verifCover("request-saw-new-generation")
 		}
